@@ -219,14 +219,14 @@ func (f *c31Filter) insert(id string, tracked bool) {
 type c31Viol struct{ sig, detail string }
 
 type c31Run struct {
-	viol        []c31Viol
-	classes     map[string]int
-	evictions   int
-	shrinks     int
-	both        int
-	rotations   int
-	transition  int // rotations into a generation of a different size (capacity change pending)
-	queueFull   int
+	viol       []c31Viol
+	classes    map[string]int
+	evictions  int
+	shrinks    int
+	both       int
+	rotations  int
+	transition int // rotations into a generation of a different size (capacity change pending)
+	queueFull  int
 }
 
 func (r *c31Run) violate(sig, f string, a ...any) {
@@ -276,7 +276,7 @@ func c31Drive(c c31Case, salt int) *c31Run {
 			id string
 			at time.Duration
 		}
-		var pending []pend // recorded, not yet known to be drained into the filter (FIFO)
+		var pending []pend       // recorded, not yet known to be drained into the filter (FIFO)
 		recs := map[string]int{} // drop records per pool id
 		recentAt := map[string]time.Duration{}
 		fresh := 0
